@@ -2,7 +2,8 @@
    list, prod, unit, sumbool map to OCaml's own; N, Z, positive, nat stay as
    extracted inductives so 2^64 arithmetic is exact. No Extract Constant. *)
 From Coq Require Import ExtrOcamlBasic.
-From V Require Import Base.Prelude Base.Prog Meta.Model.
+From V Require Import Base.Prelude Base.Prog Meta.Model Flate.Spec.
 Extraction Language OCaml.
 Extraction "model.ml"
-  meta_encode meta_decode reverse_search computeHuffLen encode_block.
+  meta_encode meta_decode reverse_search computeHuffLen encode_block
+  inflate.
